@@ -489,3 +489,286 @@ func (c *Ctx) checkPublishedNotRecycled(rule string) {
 	}
 	c.floor(rule, n, 1)
 }
+
+// checkBorrowedTagsReturnedOnce: the batching goroutine borrows tag slices from a pool for histogram
+// buckets, remembers them in a list, and returns them to the pool after the batch was emitted. After
+// that hand-back the list must be emptied on the same path: a list that still holds the slices returns
+// them a second time after the next batch, and a slice that sits in the pool twice is handed to two
+// metrics at once (one overwrites the other's tags).
+func (c *Ctx) checkBorrowedTagsReturnedOnce(rule string) {
+	const pk = "m3"
+	n := 0
+	for _, fn := range c.funcsOfPkg(pk) {
+		for _, fl := range fullIndexLoops(fn) {
+			// a loop over a list of slices whose body Puts list[i] (re-sliced) into a pool
+			lt, ok := fl.lenArg.Type().Underlying().(*types.Slice)
+			if !ok {
+				continue
+			}
+			if _, isSl := lt.Elem().Underlying().(*types.Slice); !isSl {
+				continue
+			}
+			puts := false
+			var putPos token.Pos
+			for b := range fl.loop.Blocks {
+				for _, in := range b.Instrs {
+					ci, isCall := in.(ssa.CallInstruction)
+					if !isCall {
+						continue
+					}
+					name := ""
+					if g := ci.Common().StaticCallee(); g != nil {
+						name = g.Name()
+					} else if ci.Common().IsInvoke() {
+						name = ci.Common().Method.Name()
+					}
+					if name == "Put" {
+						puts = true
+						putPos = in.Pos()
+					}
+				}
+			}
+			if !puts {
+				continue
+			}
+			n++
+			key := c.fnKey(fn)
+			c.sawFunc(key)
+			list := canon(stripConv(fl.lenArg))
+			// the enclosing (outer) loop
+			var outer *loopInfo
+			for _, l := range loopsOf(fn) {
+				if l.Header != fl.header && l.Blocks[fl.header] && (outer == nil || len(l.Blocks) < len(outer.Blocks)) {
+					outer = l
+				}
+			}
+			// blocks reachable from the put loop's exit without passing the outer header
+			var exit *ssa.BasicBlock
+			for _, sc := range fl.header.Succs {
+				if !fl.loop.Blocks[sc] {
+					exit = sc
+				}
+			}
+			if exit == nil {
+				c.undecided(rule, key, fl.header.Instrs[0].Pos(), "the hand-back loop has no exit")
+				continue
+			}
+			reach := map[*ssa.BasicBlock]bool{exit: true, fl.header: true}
+			work := []*ssa.BasicBlock{exit}
+			for len(work) > 0 {
+				b := work[len(work)-1]
+				work = work[:len(work)-1]
+				for _, sc := range b.Succs {
+					if reach[sc] || (outer != nil && sc == outer.Header) || (outer != nil && !outer.Blocks[sc]) {
+						continue
+					}
+					reach[sc] = true
+					work = append(work, sc)
+				}
+			}
+			var tainted func(v ssa.Value, depth int) bool
+			tainted = func(v ssa.Value, depth int) bool {
+				if depth == 0 {
+					return false
+				}
+				v = stripConv(v)
+				if canon(v) == list || v == list {
+					return true
+				}
+				switch x := v.(type) {
+				case *ssa.Slice:
+					if k, isK := constInt(x.High); x.High != nil && isK && k == 0 {
+						return false // truncated: starts over
+					}
+					return tainted(x.X, depth-1)
+				case *ssa.Call:
+					if isBuiltin(x, "append") {
+						return tainted(x.Call.Args[0], depth-1)
+					}
+				case *ssa.Phi:
+					// only what arrives from the hand-back side counts
+					for i, e := range x.Edges {
+						if reach[x.Block().Preds[i]] && tainted(e, depth-1) {
+							return true
+						}
+					}
+				}
+				return false
+			}
+			var bad ssa.Instruction
+			check := func(b *ssa.BasicBlock) {
+				for _, in := range b.Instrs {
+					phi, isPhi := in.(*ssa.Phi)
+					if !isPhi {
+						break
+					}
+					if !types.Identical(phi.Type(), fl.lenArg.Type()) {
+						continue
+					}
+					for i, e := range phi.Edges {
+						pred := b.Preds[i]
+						if reach[pred] && !fl.loop.Blocks[pred] && tainted(e, 6) {
+							bad = in
+						}
+					}
+				}
+			}
+			for b := range reach {
+				if !fl.loop.Blocks[b] {
+					check(b)
+				}
+			}
+			if outer != nil {
+				check(outer.Header)
+			}
+			c.check(bad == nil, rule, key, putPos, "after the borrowed tag slices went back to the pool the list that remembers them is emptied on the same path",
+				"after the borrowed tag slices were returned to the pool the list still holds them when the batching loop continues: they are returned again after the next batch, the pool then holds one slice twice and hands it to two bucket metrics at once - one metric is emitted with the other's tags", func() string {
+					if bad != nil {
+						return c.describe(bad)
+					}
+					return ""
+				}())
+		}
+	}
+	c.floor(rule, n, 1)
+}
+
+// checkClockRefresh (O5): the cached clock that stamps every metric is refreshed for as long as the
+// reporter lives: the goroutine the constructor starts for it reaches a loop that stores time.Now()
+// into the clock and then waits for a ticker that is stopped only when the loop is left.
+func (c *Ctx) checkClockRefresh(rule string) {
+	const pk = "m3"
+	fNow := c.field(pk, "reporter", "now")
+	ctor := c.fn(pk, "", "NewReporter")
+	if fNow == nil || ctor == nil {
+		c.missing(rule, "m3.reporter.now / NewReporter")
+		return
+	}
+	// functions with a loop that stores the clock
+	var loopFn *ssa.Function
+	var store ssa.Instruction
+	for _, fn := range c.funcsOfPkg(pk) {
+		for _, lp := range loopsOf(fn) {
+			for b := range lp.Blocks {
+				for _, in := range b.Instrs {
+					if op := atomicOpOf(in); op != nil && op.Field == fNow && op.Kind == "store" {
+						loopFn, store = fn, in
+					}
+				}
+			}
+		}
+	}
+	if loopFn == nil {
+		c.bad(rule, "m3.reporter.now", ctor.Pos(), "the cached clock is not refreshed inside any loop: every metric reported after the first moments carries a stale timestamp")
+		return
+	}
+	key := c.fnKey(loopFn)
+	c.sawFunc(key)
+	okAll := true
+	// the stored value is time.Now().UnixNano()
+	op := atomicOpOf(store)
+	isNow := false
+	if len(op.Args) > 0 {
+		if call, ok := stripConv(op.Args[len(op.Args)-1]).(*ssa.Call); ok {
+			if g := staticCallee(call); g != nil && g.Name() == "UnixNano" {
+				isNow = true
+			}
+		}
+	}
+	if !isNow {
+		okAll = false
+		c.bad(rule, key+":value", store.Pos(), "the value stored into the cached clock is not time.Now().UnixNano()", c.describe(store))
+	}
+	// a ticker Stop that is not deferred must not precede the loop
+	instrsOf(loopFn, func(in ssa.Instruction) {
+		call, ok := in.(*ssa.Call)
+		if !ok {
+			return
+		}
+		if g := staticCallee(call); g != nil && g.Name() == "Stop" && g.Pkg != nil && g.Pkg.Pkg.Path() == "time" {
+			if reachAvoiding(in, false, func(i ssa.Instruction) bool { return i == store }, nil) != nil {
+				okAll = false
+				c.bad(rule, key+":ticker", in.Pos(), "the ticker that paces the clock refresh is stopped before the refresh loop runs: the loop blocks on a dead ticker and the clock is never refreshed again", c.describe(in))
+			}
+		}
+	})
+	// the constructor starts it: a go statement in NewReporter reaches loopFn
+	started := false
+	var reaches func(f *ssa.Function, depth int) bool
+	reaches = func(f *ssa.Function, depth int) bool {
+		if f == nil || depth == 0 {
+			return false
+		}
+		if f == loopFn {
+			return true
+		}
+		res := false
+		instrsOf(f, func(in ssa.Instruction) {
+			if ci, ok := in.(ssa.CallInstruction); ok && !res {
+				if g := ci.Common().StaticCallee(); g != nil && c.inModule(g) {
+					res = reaches(g, depth-1)
+				}
+			}
+		})
+		return res
+	}
+	instrsOf(ctor, func(in ssa.Instruction) {
+		g, ok := in.(*ssa.Go)
+		if !ok {
+			return
+		}
+		var f *ssa.Function
+		if mc, isMC := g.Call.Value.(*ssa.MakeClosure); isMC {
+			f, _ = mc.Fn.(*ssa.Function)
+		} else {
+			f = g.Call.StaticCallee()
+		}
+		if reaches(f, 3) {
+			started = true
+		}
+	})
+	if !started {
+		okAll = false
+		c.bad(rule, key+":started", ctor.Pos(), "the constructor does not start a goroutine that runs the clock refresh loop: the clock keeps the construction time for ever")
+	}
+	if okAll {
+		c.ok(rule, key, store.Pos(), "the constructor starts a goroutine whose loop stores time.Now().UnixNano() into the clock; the pacing ticker is not stopped before the loop")
+	}
+}
+
+// checkNdigits (O7): the helper that sizes the zero padding of bucket ids counts decimal digits:
+// n starts at 1 and is incremented once per division by 10 while the quotient is non-zero.
+func (c *Ctx) checkNdigits(rule string) {
+	fn := c.fn("m3", "", "ndigits")
+	if fn == nil {
+		c.missing(rule, "m3.ndigits")
+		return
+	}
+	key := c.fnKey(fn)
+	c.sawFunc(key)
+	have := intConstsOf(fn)
+	// init 1 (phi edge), += 1, / 10 twice (test and step), != 0
+	initOne, stepOne := false, false
+	instrsOf(fn, func(in ssa.Instruction) {
+		if phi, ok := in.(*ssa.Phi); ok {
+			for _, e := range phi.Edges {
+				if k, isK := constInt(e); isK && k == 1 {
+					initOne = true
+				}
+				if bo, isB := e.(*ssa.BinOp); isB && bo.Op == token.ADD && bo.X == ssa.Value(phi) {
+					if k, isK := constInt(bo.Y); isK && k == 1 {
+						stepOne = true
+					}
+				}
+			}
+		}
+	})
+	ok := initOne && stepOne && have["/:10"] && (have["!=:0"] || have["==:0"] || have[">:0"]) && !have["*:10"]
+	for k := range have {
+		if strings.HasPrefix(k, "/:") && k != "/:10" {
+			ok = false
+		}
+	}
+	c.check(ok, rule, key, fn.Pos(), "counts decimal digits (1, then +1 per division by 10 while the quotient is non-zero)",
+		fmt.Sprintf("ndigits does not count decimal digits (starts at 1: %v, +1 per step: %v, constants %v): the zero padding of bucket ids is too narrow for some bucket counts and the ids no longer sort in bound order", initOne, stepOne, have))
+}
